@@ -21,6 +21,8 @@ type verifBlockRWC struct {
 	closed      int
 	inWrite     int
 	readErr     error // what the failing Read reports (default verifErrRead)
+	writeGate   bool  // every Write waits until the harness opens the gate (a momentarily slow peer)
+	gateOpen    bool
 }
 
 func (t *verifBlockRWC) Read(p []byte) (int, error) {
@@ -44,6 +46,11 @@ func (t *verifBlockRWC) Write(p []byte) (int, error) {
 		t.inWrite++
 		verifBlockUntil(&t.closedFlag)
 		return 0, io.ErrClosedPipe
+	}
+	if t.writeGate {
+		t.inWrite++
+		verifBlockUntil(&t.gateOpen)
+		t.inWrite--
 	}
 	return t.VerifRecWriter.Write(p)
 }
@@ -480,4 +487,67 @@ func verifHarness_C13_node_keeps_serving(perm int) {
 		verifAssert(buf[10] == 1 && buf[17+10] == 2 && buf[34+10] == 3, "C13/N/healthy-link-in-order")
 	}
 	verifReach("C13/N")
+}
+
+
+// C11 at node level (one schedule): a router forwards three different frames to all links while one link is
+// momentarily slow (its transport Write waits): once the link catches up, each link has carried the three frames, whole,
+// in submission order, each exactly once - a frame waiting in a backlog is not touched by later ones.
+func verifHarness_C11_node_forward_frames() {
+	a, b := &verifBlockRWC{writeGate: true}, &verifBlockRWC{}
+	n := &Node{Dialect: verifHarnessDialect, OutVersion: V2, OutSystemID: 1, HeartbeatDisable: true,
+		Endpoints: []EndpointConf{verifDirectConf{&verifDirectEndpoint{t: a}}, verifDirectConf{&verifDirectEndpoint{t: b}}}}
+	var ierr error
+	verifRunGoroutines(func() { ierr = n.Initialize() })
+	verifAssert(ierr == nil, "C11/NF/initialize-ok")
+	for i := 0; i < 2; i++ {
+		evt := <-n.chEvent
+		_, isOpen := evt.(*EventChannelOpen)
+		verifAssert(isOpen, "C11/NF/open-events-first")
+		verifRunGoroutines(nil)
+	}
+	var want []byte
+	for i := 0; i < 3; i++ {
+		seq, sys := verifNondetU8(), verifNondetU8()
+		ck := verifNondetU16()
+		payload := verifNondetBytes(2)
+		keep := []byte{payload[0], payload[1]}
+		fr := &frame.V2Frame{SequenceNumber: seq, SystemID: sys, ComponentID: byte(i + 1), Checksum: ck,
+			Message: &message.MessageRaw{ID: 77777, Payload: payload}}
+		want = append(want, frame.VerifSpecV2(0, 0, seq, sys, byte(i+1), 77777, keep, ck, false, 0, 0, nil)...)
+		returned := false
+		verifRunGoroutines(func() { n.WriteFrameAll(fr); returned = true }) //nolint:errcheck
+		verifAssert(returned, "C11/NF/write-returns")
+	}
+	verifAssert(verifEqBytes(b.Buf(), want), "C11/NF/healthy-link-carries-every-frame-in-order")
+	a.gateOpen = true
+	verifRunGoroutines(nil)
+	verifAssert(verifEqBytes(a.Buf(), want), "C11/NF/slow-link-carries-every-frame-in-order-once-it-catches-up")
+	verifReach("C11/NF")
+}
+
+// C10: a long run of rejected input (130 junk bytes in a row, then a frame with a wrong checksum) is 131 parse errors,
+// nothing else: the channel stays open and the valid frame behind it is delivered.
+func verifHarness_C10_many_errors() {
+	n := verifBareNode(V2, 1, 1)
+	var stream []byte
+	for i := 0; i < 130; i++ {
+		stream = append(stream, byte(i%200)) // 0..199: never a frame marker
+	}
+	bad := verifValidFrame(5, nil, 0)
+	bad[10+9] ^= 0x40
+	stream = append(stream, bad...)
+	stream = append(stream, verifValidFrame(6, nil, 0)...)
+	rwc := &verifRWC{rd: frame.VerifChunkReader(stream, nil)}
+	ch := &Channel{node: n, rwc: rwc}
+	verifAssert(ch.initialize() == nil, "C10/E/channel-init")
+	verifChanSink(n.chEvent)
+	verifChanSink(n.chCloseChannel)
+	var rerr error
+	blocked := verifRunUntilBlocked(func() { rerr = ch.runReader() })
+	verifAssert(!blocked && rerr == io.EOF, "C10/E/reader-ends-with-the-transports-eof-only")
+	_, closes, frames, others, _ := verifDrainEvents(n)
+	verifAssert(frames == 1, "C10/E/valid-frame-behind-the-errors-delivered")
+	verifAssert(others == 131 && closes == 0, "C10/E/one-parse-error-per-rejected-item-and-nothing-else")
+	verifReach("C10/E")
 }
